@@ -218,7 +218,7 @@ class Color(Sequence):
 
         # CSS variables referencing palette entries as custom properties:
         # https://docs.microsoft.com/en-us/typography/opentype/spec/svg#color-palettes
-        m = cls._COLOR_VARIABLE_RE.match(s)
+        m = cls._COLOR_VARIABLE_RE.fullmatch(s)
         if m:
             palette_index = int(m.group(1))
             default_color = m.group(2)
